@@ -133,6 +133,7 @@ func init() {
 			{Name: "many", TShards: 2, Run: c16Many},
 			{Name: "profiles", TShards: 4, Run: c16Profiles},
 			{Name: "pileups", TShards: 2, Run: c16Pileups},
+			{Name: "scales", QShards: 4, TShards: 8, Run: c16Scales},
 		},
 	})
 }
@@ -720,6 +721,64 @@ func c16Pileups(c *Ctx) {
 				}
 				k.Count("pileup_indexes", 1)
 				k.Nontrivial([]byte(fmt.Sprint("pileup", n, variant)))
+			})
+			idx++
+		}
+	}
+}
+
+// c16Scales: a few hundred to a few thousand overlapping intervals whose
+// coordinates SPAN 2^e, for every e from 8 to 62, around a random origin
+// (negative ones too): tilings, overlapping windows and random intervals. The
+// random units use small coordinates or the very ends of the int range; a sort
+// through packed keys, a radix pass, a bucket width or a float conversion goes
+// wrong for one particular magnitude in between (2^24, 2^31, 2^52, 2^53 …).
+// Every boundary and its neighbours is queried against the scan.
+func c16Scales(c *Ctx) {
+	idx := int64(0)
+	for e := 8; e <= 62; e++ {
+		for variant := 0; variant < 2; variant++ {
+			c.Case(idx, func(k *K) {
+				r := k.Rand()
+				n := pick(r, []int{520, 600, 1100, 2100})
+				if variant == 1 && k.c.Thorough {
+					n = pick(r, []int{5000, 70000})
+				}
+				span := uint64(1)<<uint(e) + uint64(r.Int64N(1<<uint(e-1)))
+				origin := int(r.Int64N(1<<40)) - 1<<39
+				if e >= 61 {
+					origin = math.MinInt64/2 + r.IntN(1000)
+				} else if r.IntN(3) == 0 {
+					origin = -int(span / 2)
+				}
+				step := span / uint64(n)
+				starts, ends := make([]int, n), make([]int, n)
+				for j := 0; j < n; j++ {
+					var st uint64
+					if variant == 0 { // overlapping windows: step apart, 1.5 steps long
+						st = uint64(j) * step
+						starts[j], ends[j] = origin+int(st), origin+int(st+step+step/2)
+					} else { // random
+						st = uint64(r.Int64N(int64(span - step)))
+						starts[j], ends[j] = origin+int(st), origin+int(st+uint64(r.Int64N(int64(2*step+2))))
+					}
+				}
+				r.Shuffle(n, func(a, b int) { starts[a], starts[b] = starts[b], starts[a]; ends[a], ends[b] = ends[b], ends[a] })
+				k.Input("intervals", n)
+				k.Input("span_bits", e)
+				k.Input("origin", origin)
+				ix := regions.NewIndex(starts, ends)
+				qs := 0
+				for j := 0; j < n && qs < 1500; j += 1 + n/500 {
+					for _, q := range []int{starts[j] - 1, starts[j], starts[j] + 1, ends[j] - 1, ends[j], ends[j] + 1} {
+						if !checkAt(k, ix, starts, ends, q) {
+							return
+						}
+						qs++
+					}
+				}
+				k.Count("scale_indexes", 1)
+				k.Nontrivial([]byte(fmt.Sprint("scales", e, variant, n)))
 			})
 			idx++
 		}
